@@ -1,0 +1,16 @@
+//go:build !verif
+// +build !verif
+
+package nutsdb
+
+// Verification hooks (build tag "verif"). With the tag off they are no-ops.
+
+func verifFS(op, path string, off int64, b []byte) (bool, int, error) { return false, 0, nil }
+
+func verifYield(point string) {}
+
+func verifTrackMMap(m []byte, path string) {}
+
+func verifMMapPath(m []byte) string { return "" }
+
+func verifUntrackMMap(m []byte) {}
